@@ -31,6 +31,31 @@ def setup():
 class ReplayDivergence(Exception):
     pass
 
+class ExecTimeout(BaseException):
+    "wall-clock watchdog of one execution (a hang must never stall a whole check)"
+
+EXEC_TIMEOUT_S = 20
+
+def _on_alarm(signum, frame):
+    raise ExecTimeout()
+
+class watchdog:
+    """with watchdog(30): ...  raises ExecTimeout in the block after that many wall seconds.
+    (execute() arms its own shorter timer; nesting restores the outer deadline approximately.)"""
+    def __init__(self, seconds):
+        self.seconds = seconds
+    def __enter__(self):
+        import signal, time
+        self.old = signal.signal(signal.SIGALRM, _on_alarm)
+        self.t0 = time.time()
+        signal.setitimer(signal.ITIMER_REAL, self.seconds)
+        return self
+    def __exit__(self, *exc):
+        import signal
+        signal.setitimer(signal.ITIMER_REAL, 0)
+        signal.signal(signal.SIGALRM, self.old)
+        return False
+
 OPTS = {
     'default': {},
     'nogroup': dict(is_group_optim=False),
@@ -84,7 +109,7 @@ def classify(tab):
     return 'completed_no_argument', 0, 0
 
 def execute(logic, argument, *, optname='default', mode='build', prefix=(), order=0,
-            monitors=(), extra_opts=None, keep_tab=False, step_cap=None):
+            monitors=(), extra_opts=None, keep_tab=False, step_cap=None, timeout=None):
     """Run one execution. ``argument`` is an Argument (or argstr)."""
     setup()
     from pytableaux.lang import Argument
@@ -136,6 +161,9 @@ def execute(logic, argument, *, optname='default', mode='build', prefix=(), orde
 
     _verif.reset(order)
     _verif.scheduler = scheduler
+    import signal
+    old_handler = signal.signal(signal.SIGALRM, _on_alarm)
+    outer_left = signal.setitimer(signal.ITIMER_REAL, timeout or EXEC_TIMEOUT_S)[0]
     try:
         tab = Tableau(logic, **opts)
         for m in monitors:
@@ -179,10 +207,15 @@ def execute(logic, argument, *, optname='default', mode='build', prefix=(), orde
                     ex.monitor_errors.append(err)
     except ReplayDivergence:
         raise
+    except ExecTimeout:
+        ex.raised = f'ExecTimeout: no result after {timeout or EXEC_TIMEOUT_S}s wall clock'
+        tab = locals().get('tab')
     except Exception as e:
         ex.raised = f'{type(e).__name__}: {e}'
         tab = locals().get('tab')
     finally:
+        signal.setitimer(signal.ITIMER_REAL, max(outer_left, 0.5) if outer_left else 0)
+        signal.signal(signal.SIGALRM, old_handler)
         _verif.scheduler = None
     if ex.raised is not None:
         ex.outcome = 'raised:' + ex.raised.split(':')[0]
